@@ -713,6 +713,8 @@ def rexpr(e):
         if e["h"]:
             out = []
             rblock(e["h"], e.get("ind", 2), out)
+            if e.get("nofb"):        # the handler leaves the function: no fallback value
+                return "%s catch %s {\n%s\n%s}" % (rexpr(e["call"]), e["n"], "\n".join(out), "    " * (e.get("ind", 2) - 1))
             return "%s catch %s {\n%s\n%s} %s" % (rexpr(e["call"]), e["n"], "\n".join(out), "    " * (e.get("ind", 2) - 1), rexpr(e["fb"]))
         return "%s catch %s" % (rexpr(e["call"]), rexpr(e["fb"]))
     raise ValueError(k)
@@ -907,6 +909,12 @@ def expr_program(cases, opaque=True):
                      {"k": "let", "n": "c%d" % j, "dty": "bool", "e": {"k": "cmp", "op": "<", "l": e, "r": va}},
                      {"k": "print", "e": {"k": "var", "n": "c%d" % j}}]
             linemap += [j, j]
+            if t[2] < 64:
+                # ... and by a widening cast before it is ever stored: every bit of the temporary is observed
+                tw = BYNAME[("i" if t[1] else "u") + "64"]
+                main += [{"k": "let", "n": "w%d" % j, "dty": tw[0], "e": {"k": "cast", "e": e, "ty": tyj(tw)}},
+                         {"k": "print", "e": {"k": "var", "n": "w%d" % j}}]
+                linemap += [j]
         elif op in ("<", "<=", ">", ">=", "==", "!="):
             main += [{"k": "let", "n": "c%d" % j, "dty": "bool", "e": {"k": "cmp", "op": op, "l": va, "r": vb}},
                      {"k": "print", "e": {"k": "var", "n": "c%d" % j}}]
